@@ -8,6 +8,7 @@
     xml_roundtrip_outputside_partial
     tokenizer_inverts_serializer
     ser_idempotent_partial builder_stream_not_idemOK
+    ser_idempotent_builder_events ser_idempotent_builder ser_idempotent_parsed_text
     explicit_default_not_undeclared
     encode_roundtrip_text encode_roundtrip_attr charref_roundtrip
     attr_tab_lf_cr_not_recovered text_cr_not_recovered decl_encoding_echoed
@@ -17,6 +18,7 @@ import Genshi.Lemmas.XmlFlatD
 import Genshi.Lemmas.XmlEmptyTag
 import Genshi.Lemmas.XmlEncode
 import Genshi.Lemmas.XmlIdem
+import Genshi.Lemmas.XmlIdemE
 import Genshi.Lemmas.XmlTxtB
 import Genshi.Lemmas.XmlMerge
 import Genshi.Model.XmlParser
@@ -242,6 +244,83 @@ example : idemOK defaultPref (emptyTag
 theorem builder_stream_not_idemOK :
     idemOK defaultPref (emptyTag [.start ⟨['u'], ['a']⟩ [], .text ['t'] false, .end_ ⟨['u'], ['a']⟩]) = false := by
   decide
+
+/-- **ser_idempotent for builder streams, namespace stage.**  For every stream
+    without namespace events (`builderShaped`: what `genshi.builder` delivers —
+    the namespaces live in the qualified names and `NamespaceFlattener` makes up
+    every prefix and declaration) that is a document (`docOK`), and every legal
+    preferred-prefix table: reading the flattened output back as `XMLParser` +
+    `EmptyTagFilter` would (`reparseX`: the made-up declarations arrive as
+    explicit START_NS events, `xmlns=""` as `None`) and flattening again yields
+    the same flattened events (up to `None` / `""` as the value of `xmlns`,
+    which the serializer writes alike) — hence the same text.  The second pass
+    takes every declaration the first pass made up, in order, makes up none
+    itself, and chooses for every element and attribute name the prefix the
+    first pass chose: a prefix chosen for a name stays the answer of
+    `_find_prefix` under the fresh declarations made later on the same tag
+    (`findPrefix_push_stable`, `flatAttrs_stable`), and `_find_prefix` depends
+    only on what a reader can see of the bindings (`findPrefix_scope`), not on
+    the `auto` flags or the prefix counter, which differ between the passes. -/
+theorem ser_idempotent_builder_events (pref : List (Str × Str)) (hpref : prefOK pref = true) (s : Stream)
+    (h1 : docOK (emptyTag s) = true) (h2 : builderShaped (emptyTag s) = true) :
+    ∃ xs2, reparseX PSt.init ((flatten pref (emptyTag s)).map normF) = some xs2 ∧
+      (flatten pref xs2).map normF = (flatten pref (emptyTag s)).map normF ∧
+      serRun SerSt.init (flatten pref xs2) = serRun SerSt.init (flatten pref (emptyTag s)) := by
+  obtain ⟨xs2, r1, r2⟩ := idem_flatten_builder pref hpref _ h1 h2
+  exact ⟨xs2, r1, r2, by rw [← serRun_normF, r2, serRun_normF]⟩
+
+/-- **ser_idempotent for builder streams** (text level, every encoding): for
+    every builder stream `s` in the domain of `xml_roundtrip` (`docOK`,
+    `inputTextOKm`: adjacent and empty TEXT events allowed, the statement's
+    exclusions only), every legal preferred-prefix table and every encoding
+    that contains ASCII: `XMLSerializer` produces a text `out`; parsing its
+    encoded form (`parseText`: tokenizer, white space outside the root element
+    dropped, namespace declarations reported as START_NS / END_NS events around
+    their element, resolved names) succeeds, and serialising the parsed stream
+    gives `out` again:  `ser (parse (encode (ser s))) = ser s`.
+
+    `parseText` is the specification-side account of `XMLParser` +
+    `EmptyTagFilter`; it is compared with the real parser on every serializer
+    output by the correspondence stream `reparse` (not derived from a model of
+    expat). -/
+theorem ser_idempotent_builder (pref : List (Str × Str)) (hpref : prefOK pref = true)
+    (rep : Char → Bool) (hr : AsciiRep rep) (s : Stream)
+    (h : docOK (emptyTag s) = true) (hb : builderShaped (emptyTag s) = true)
+    (ht : inputTextOKm rep pref (emptyTag s) = true) :
+    ∃ out, serRun SerSt.init (flatten pref (emptyTag s)) = some out ∧
+      ∃ xs2, parseText (encodeText rep out) = some xs2 ∧
+        serRun SerSt.init (flatten pref xs2) = some out :=
+  idem_text_builder pref hpref rep hr _ h hb ht
+
+/-- **ser_idempotent for parser-shaped streams, text level**: the same
+    conclusion for streams in `idemOK` (what the parser delivers: namespace
+    events in front of their start tag, nothing for the flattener to make up)
+    without adjacent character data (`inputTextOK`; the parser coalesces). -/
+theorem ser_idempotent_parsed_text (pref : List (Str × Str)) (hpref : prefOK pref = true)
+    (rep : Char → Bool) (hr : AsciiRep rep) (s : Stream)
+    (h : docOK (emptyTag s) = true) (hi : idemOK pref (emptyTag s) = true)
+    (ht : inputTextOK rep pref (emptyTag s) = true) :
+    ∃ out, serRun SerSt.init (flatten pref (emptyTag s)) = some out ∧
+      ∃ xs2, parseText (encodeText rep out) = some xs2 ∧
+        serRun SerSt.init (flatten pref xs2) = some out :=
+  idem_text_parsed pref hpref rep hr _ h hi ht
+
+/-- a builder tree with two namespaces, a namespaced attribute that needs a
+    made-up prefix, an un-namespaced child (`xmlns=""`), a child back in the
+    first namespace, adjacent and empty strings is inside the hypotheses; the
+    second pass does see made-up declarations (three of them on the root) -/
+example :
+    let s : Stream :=
+      [.start ⟨['u'], ['a']⟩ [(⟨['v'], ['x']⟩, ['1']), (⟨['u'], ['y']⟩, ['2'])],
+       .text ['t'] false, .text [] false, .text ['&'] false,
+       .start ⟨[], ['d']⟩ [], .start ⟨['u'], ['e']⟩ [(⟨['v'], ['z']⟩, ['3'])], .end_ ⟨['u'], ['e']⟩, .end_ ⟨[], ['d']⟩,
+       .end_ ⟨['u'], ['a']⟩]
+    docOK (emptyTag s) = true ∧ builderShaped (emptyTag s) = true ∧
+    inputTextOKm (inRanges [(0, 127)]) defaultPref (emptyTag s) = true ∧
+    (flatten defaultPref (emptyTag s)).head? =
+      some (.start ['a'] [(['x','m','l','n','s'], ['u']), (['x','m','l','n','s',':','n','s','1'], ['v']),
+        (['x','m','l','n','s',':','n','s','2'], ['u']), (['n','s','1',':','x'], ['1']), (['n','s','2',':','y'], ['2'])]) := by
+  refine ⟨by decide, by decide, by decide, by decide⟩
 
 /-- a namespaced document with declaration, DOCTYPE and mixed content is inside
     all hypotheses, and the text it is about exists -/
